@@ -35,14 +35,20 @@ def run_demo(repo, seeddir):
         src = open(demo).read()
         import re
         names = re.findall(r"^func (Test\w+)\(", src, re.M)
-        dst = os.path.join(repo, "zz_seed_demo_test.go")
+        # demo_dir.txt (one line, optional): package directory, relative to
+        # the repository root, the demo belongs to (default: the root package)
+        sub = "."
+        dd = os.path.join(seeddir, "demo_dir.txt")
+        if os.path.exists(dd):
+            sub = open(dd).read().strip() or "."
+        dst = os.path.join(repo, sub, "zz_seed_demo_test.go")
         shutil.copy(demo, dst)
         race = ["-race"] if ("-race" in src) else []
         m = re.search(r"^//go:build (\w+)\s*$", src, re.M)
         if m:
             race += ["-tags", m.group(1)]
         try:
-            rc, out = sh(["go", "test", "-vet=off", "-count=1", "-timeout", "300s"] + race + ["-run", "^(" + "|".join(names) + ")$", "."], repo)
+            rc, out = sh(["go", "test", "-vet=off", "-count=1", "-timeout", "300s"] + race + ["-run", "^(" + "|".join(names) + ")$", "./" + sub], repo)
         finally:
             os.remove(dst)
         return rc, out[-1500:]
